@@ -68,11 +68,9 @@ class Breakpoint:
 def unhalted(func):
     @wraps(func)
     def wrapped(self, *args, **kwargs):
-        reasons = [
-            HaltReason.INSTRUCTION,
-            HaltReason.END_OF_CODE,
-        ]
-        if self.cpu.halted and self.cpu.halt_reason in reasons:
+        if self.cpu.halted:
+            # finished: by an instruction, by reaching the end of the
+            # code, or by an (unhandled) run-time error
             print('Machine is halted.')
             return
         return func(self, *args, **kwargs)
